@@ -15,6 +15,18 @@ STRENGTHENED = {  # seed -> rule added or tightened after the seed was first mis
  'C07-1': 'C07.R6 (-1 sentinel)', 'C16-2': "C16.R4 (empty-string literal flow, new)",
  'C19-1': 'C19.R1 (SupervisorData sink) + C19.R2 (live parameter store)', 'C19-2': 'C19.R2 (faithful copy)',
  'C19-3': 'C19.R2 (no re-synthesis on mocks)', 'C03-1': 'C18.R1 (enum class vs annotation) - built with C18',
+ # second round (defects hidden in refactorings): first missed, see DESIGN 10.5
+ 'C01-4': 'handshake order (shared, new)', 'C03-6': 'sound alias folding + C03.R2 pop from the attribute itself',
+ 'C04-4': 'pending load definition (shared, new)', 'C05-6': 'running_on definition (shared, new)',
+ 'C07-4': 'C07.R6 TICK counter before anything that can fail (new)', 'C07-5': 'C07.R7 local proxy renewal (new)',
+ 'C08-4': 'C08.R6 precedence of the failure causes (new)', 'C09-6': 'has_running_processes definition + plan scope (new)',
+ 'C10-5': 'C10.R3 event_time writers (new)', 'C10-6': 'C10.R3 forced marker removed from a copy (new)',
+ 'C12-6': 'running_processes definition (C12.R5, new)', 'C13-6': 'discovery eligibility (shared, new)',
+ 'C15-4': 'C15.R6 order state/reset/status (new)', 'C15-5': 'C15.R3 exact name before pattern (new)',
+ 'C17-5': 'C16.R7/C17.R2 raw parameter passed on (new)', 'C17-6': 'C17.R2 numprocs > 0 + assert facts after try',
+ 'C18-5': "C18.R4 regex syntax tree of the '#' index (new)", 'C18-6': 'C18.R5 multicast first byte (new)',
+ 'C19-4': 'C19.R1 setattr on live objects is a sink (new)', 'C20-5': 'C20.R4 re-insertion unless vanished (new)',
+ 'C20-6': 'C20.R4 psutil accesses covered (new)',
 }
 confirm = {}
 for f in sorted(SRC.glob('confirm*.json')):
